@@ -233,8 +233,9 @@ class shard_env:
 
 def with_array_forms(shards, tier, pick):
     """Copies of the picked shards that hand the library another FORM of the same arrays (mc/values.np_array):
-    quick - a read-only strided view; thorough - also a plain read-only array and a negative-stride view."""
-    forms = ["strided"] if tier == "quick" else ["strided", "readonly", "reversed"]
+    quick - a read-only strided view, and plain Python lists (for the kinds whose dtype the constructor infers from a
+    list); thorough - also a plain read-only array and a negative-stride view."""
+    forms = ["strided", "pylist"] if tier == "quick" else ["strided", "pylist", "readonly", "reversed"]
     extra = []
     for sh in shards:
         if "__env__" not in sh and pick(sh):
@@ -267,6 +268,10 @@ def other_hash_seed(spec):
     seed = (env or {}).get("PYTHONHASHSEED")
     if seed is not None and str(seed) != os.environ.get("PYTHONHASHSEED"):
         return str(seed)
+    if (env or {}).get("MC_FRESH") == "1" and os.environ.get("MC_FRESH_INSIDE") != "1":
+        # a shard that wants to be the FIRST thing the library does in an interpreter (first-use effects): same
+        # mechanism, same hash seed
+        return os.environ.get("PYTHONHASHSEED", "0")
     return None
 
 
@@ -278,7 +283,7 @@ def _work_in_subprocess(arg, seed):
     fin, fout = os.path.join(d, "in.pickle"), os.path.join(d, "out.pickle")
     with open(fin, "wb") as f:
         pickle.dump(arg, f)
-    env = dict(os.environ, PYTHONHASHSEED=seed)
+    env = dict(os.environ, PYTHONHASHSEED=seed, MC_FRESH_INSIDE="1")
     p = subprocess.run([sys.executable, "-c", "import sys; from mc import harness; harness._subprocess_main(sys.argv[1], sys.argv[2])", fin, fout],
                        env=env, cwd=VERIF, capture_output=True, text=True)
     try:
